@@ -16,6 +16,19 @@ Driver glue for C09: S-expression -> `Ctx` / `TExpr` / `Stmts` -> `check` / `che
           | (cjump KW KIND LABEL C) | (inert ...) | (block (S*)) | (ret) | (ret E)
           | (func NAME RT (S*)) | (script NAME (S*)) | (interrupt E) | (reltime E)
   REF   ::= (ref r|v ID SIG)
+
+Extended cases (the constructs added to the model later; same handlers, the harness keeps the
+two streams apart so that other properties that reuse the `prog` / `pipe` stream see it unchanged):
+
+  case  ::= ... | (xprog CTX (STMT*)) | (xexpr CTX EXPR)
+  CTX   ::= (ctx (regs ..) (vars ..) (sigs ..) (enums (ID i|s)*) (funcs (ID RT VT*)*))
+            RT ::= int | float | string | void
+  EXPR  ::= ... | (sw E CASE*)  CASE ::= _ | EXPR          difficulty switch, `_` = blank case
+          | (xcr pre|post inc|dec REF)                       `++v` `v++` `--v` `v--`
+          | (enum ENUM NAME)                                 `Enum.Name`
+          | (lprop offsetof|timeof LABEL)
+          | (callx i|u F ((ps KIND E)*) E*)                  KIND ::= pop | arg0 | nargs | mask | blob
+  STMT  ::= ... | (decls (d ID [E])*) | (consts (d ID E)*) | (func NAME RT (S*) (params ID*) QUAL)
 -/
 namespace TruthModel.Driver.C09
 open TruthModel TruthModel.Types
@@ -34,6 +47,19 @@ def lookupTy (tbl : List (Nat × VarTy)) (n : Nat) : VarTy :=
 def pairs (s : Sexp) : List (Nat × VarTy) :=
   s.args.map fun p => ((p.items[0]!).asNat, varTyOf (p.items[1]!).asAtom)
 
+def etyOf : String → ETy
+  | "int" => .value .int
+  | "float" => .value .float
+  | "string" => .value .str
+  | _ => .void
+
+def toRef (s : Sexp) : VarRef :=
+  let a := s.args
+  { isReg := (a[0]!).asAtom == "r", id := (a[1]!).asNat, sig := Driver.C11.sigOf (a[2]!).asAtom }
+
+def pseudoKindOf : String → PseudoKind
+  | "pop" => .pop | "arg0" => .arg0 | "nargs" => .nargs | "mask" => .mask | _ => .blob
+
 def paramOf (p : Sexp) : Param :=
   { ty := varTyOf (p.items[0]!).asAtom, optional := (p.items[1]!).asAtom == "o" }
 
@@ -47,10 +73,23 @@ def toCtx (c : Sexp) : Ctx :=
     match p.items[2]? with
     | some m => if m.asAtom == "c" then some (p.items[0]!).asNat else none
     | none => none
+  let enums : List (Nat × Bool) := match a[3]? with
+    | some e => e.args.map fun p => ((p.items[0]!).asNat, (p.items[1]!).asAtom == "s")
+    | none => []
+  let funcs : List (Nat × (List VarTy × ETy)) := match a[4]? with
+    | some fs => fs.args.map fun p =>
+        ((p.items[0]!).asNat, ((p.items.drop 2).map fun t => varTyOf t.asAtom, etyOf (p.items[1]!).asAtom))
+    | none => []
   { regTy := lookupTy regs
     varTy := lookupTy vars
     sig := fun f => (sigs.find? (·.1 == f)).map (·.2)
-    isConst := fun n => consts.contains n }
+    isConst := fun n => consts.contains n
+    enumStr := fun en => match enums.find? (·.1 == en) with
+      | some (_, b) => b
+      | none => false
+    fsig := fun f => match funcs.find? (·.1 == f) with
+      | some (_, sg) => sg
+      | none => ([], .void) }
 
 mutual
 partial def toExpr (s : Sexp) : TExpr :=
@@ -65,26 +104,29 @@ partial def toExpr (s : Sexp) : TExpr :=
   | some "bin" => .binop (Driver.C11.binopOfName (a[0]!).asAtom) (toExpr a[1]!) (toExpr a[2]!)
   | some "tern" => .ternary (toExpr a[0]!) (toExpr a[1]!) (toExpr a[2]!)
   | some "call" => .call (a[0]!).asNat (toArgs (a.drop 1))
+  | some "sw" => .diffSwitch (toExpr a[0]!) (toCases (a.drop 1))
+  | some "xcr" => .xcrement ((a[0]!).asAtom == "pre") ((a[1]!).asAtom == "inc") (toRef a[2]!)
+  | some "enum" => .enumConst (a[0]!).asNat (a[1]!).asNat
+  | some "lprop" => .labelProp (a[1]!).asNat
+  | some "callx" => .callx ((a[0]!).asAtom == "u") (a[1]!).asNat (toPseudos (a[2]!).items) (toArgs (a.drop 3))
   | _ => .litI 0
 partial def toArgs : List Sexp → TArgs
   | [] => .nil
   | x :: xs => .cons (toExpr x) (toArgs xs)
+partial def toCases : List Sexp → TCases
+  | [] => .nil
+  | x :: xs => match x.head? with
+    | some _ => .case (toExpr x) (toCases xs)
+    | none => .blank (toCases xs)
+partial def toPseudos : List Sexp → TPseudos
+  | [] => .nil
+  | x :: xs => .cons (pseudoKindOf (x.args[0]!).asAtom) (toExpr (x.args[1]!)) (toPseudos xs)
 end
-
-def toRef (s : Sexp) : VarRef :=
-  let a := s.args
-  { isReg := (a[0]!).asAtom == "r", id := (a[1]!).asNat, sig := Driver.C11.sigOf (a[2]!).asAtom }
 
 def assignOpOf : String → AssignOp
   | "assign" => .assign | "add" => .add | "sub" => .sub | "mul" => .mul | "div" => .div
   | "rem" => .rem | "bor" => .bor | "xor" => .xor | "band" => .band | "shl" => .shl
   | "shr" => .shr | _ => .ushr
-
-def etyOf : String → ETy
-  | "int" => .value .int
-  | "float" => .value .float
-  | "string" => .value .str
-  | _ => .void
 
 mutual
 partial def toStmt (s : Sexp) : Stmt :=
@@ -110,6 +152,9 @@ partial def toStmt (s : Sexp) : Stmt :=
   | some "script" => .script (toStmts (a[1]!).items)
   | some "interrupt" => .interruptLabel (toExpr a[0]!)
   | some "reltime" => .relTimeLabel (toExpr a[0]!)
+  | some "decls" => .decls (a.map fun d =>
+      ((d.args[0]!).asNat, match d.args[1]? with | some e => some (toExpr e) | none => none))
+  | some "consts" => .constDecls (a.map fun d => ((d.args[0]!).asNat, toExpr (d.args[1]!)))
   | _ => .inert
 partial def toStmts : List Sexp → Stmts
   | [] => .nil
@@ -125,12 +170,12 @@ def etyName : ETy → String
 def handle (case : Sexp) : Sexp :=
   let a := case.args
   match case.head? with
-  | some "prog" =>
+  | some "prog" | some "xprog" =>
     match checkStmts codeCfg (toCtx a[0]!) none (toStmts (a[1]!).items) with
     | .ok () => Sexp.app "ok" []
     | .err c => Sexp.app "err" [.str c]
     | .panic s => Sexp.app "panic" [.str "model", .str s]
-  | some "expr" =>
+  | some "expr" | some "xexpr" =>
     match check (toCtx a[0]!) (toExpr a[1]!) with
     | .ok t => Sexp.app "ok" [.atom (etyName t)]
     | .err c => Sexp.app "err" [.str c]
